@@ -31,7 +31,7 @@ LEVEL = 'proof'
 
 BOOLS = ['l', 'b', 'v', 'o', 'z', 'u', 'pi', 'p', 'i']
 SETUPS = ['none', 'here', 'else']
-TARGETS = ['rel', 'sub', 'dot', 'dotdot', 'abs', 'path_abs', 'path_rel', 'cwdfirst', 'mod', 'pkg']
+TARGETS = ['rel', 'sub', 'dot', 'dotdot', 'abs', 'path_abs', 'path_rel', 'cwdfirst', 'mod', 'pkg', 'pkgmod']
 ARGSETS = [[], ['a', '-b', '--x=1'], ['-v', '-l', 'x y', '-o', 'q']]
 DIMS = [(b, [False, True]) for b in BOOLS] + [('setup', SETUPS), ('target', TARGETS), ('argset', [0, 1, 2])]
 
@@ -61,6 +61,17 @@ def prog_text(sib, n, a, b, imp=None):
             '        if i %% 2:\n            acc += %s.val(i)\n        else:\n            acc -= twice(i) * %d\n'
             '    return acc\n\n%s\nprint("VALUE", compute(%d))\nprint("SIBFILE", os.path.basename(%s.__file__))\n'
             % (imp, a, sib, b, OBS_SNIPPET, n, sib))
+
+
+def pkg_prog_text(n, a, b):
+    """a module inside a package: relative imports at the top level, guarded by try/except ImportError
+    with a fallback, inside an if block and lazily inside a function - `python -m` resolves all of them"""
+    return ('import sys, os, json, builtins\nfrom . import helper\ntry:\n    from ._fast import twice\nexcept ImportError:\n'
+            '    def twice(x):\n        return -1000\nif len(sys.argv) >= 0:\n    from . import helper as helper2\n\n\n'
+            'def compute(n):\n    from .helper import val as lazy_val\n    acc = %d\n    for i in range(n):\n'
+            '        if i %% 2:\n            acc += lazy_val(i) + helper2.val(i)\n        else:\n            acc -= twice(i) * %d\n'
+            '    return acc\n\n%s\nprint("VALUE", compute(%d))\nprint("SIBFILE", os.path.basename(helper.__file__))\n'
+            % (a, b, OBS_SNIPPET, n))
 
 
 def sib_text(k):
@@ -103,7 +114,9 @@ def layout(rnd):
         n['mod'] + '.py': prog_text(sa, 8, k[3], k[5]),
         n['pkg'] + '/__init__.py': '',
         n['pkg'] + '/helper.py': sib_text(k[6]),
-        n['pkg'] + '/__main__.py': prog_text('helper', 6, k[7], k[0], imp='from . import helper\nfrom .helper import twice'),
+        n['pkg'] + '/_fast.py': sib_text(k[2]),
+        n['pkg'] + '/__main__.py': pkg_prog_text(6, k[7], k[0]),
+        n['pkg'] + '/tool.py': pkg_prog_text(5, k[1], k[4]),
         n['setup']: SETUP_TEXT,
         # later PATH directory with EXECUTABLE files of the same names: must never be chosen, the
         # first regular file wins whatever its permission bits (kernprof reads and execs the source)
@@ -128,6 +141,8 @@ def target_words(n, proj, target):
         return ['-m', n['mod']], ['-m', n['mod']], 'module', n['mod']
     if target == 'pkg':
         return ['-m', n['pkg']], ['-m', n['pkg']], 'module', n['pkg']
+    if target == 'pkgmod':
+        return ['-m', n['pkg'] + '.tool'], ['-m', n['pkg'] + '.tool'], 'module', n['pkg'] + '.tool'
     s = t[target]
     return [s], [locate(proj, s, path_entries(proj))], 'script', None
 
@@ -704,8 +719,8 @@ def run(tier, seed):
              'distinct by (option set, setup location, target spelling, argument list)',
         exhaustive=(tier == 'thorough'),
         lattice='2^9 boolean options (-l -b -v -o -z -u --prof-imports -p -i) x setup {none, launch dir, other dir} x '
-                '10 targets (relative, sub-directory, ./, sub/../, absolute, PATH absolute dir, PATH relative dir, name also in cwd, '
-                '-m module, -m package)' + (' = %d combinations, all run (argument list chosen per combination)' % len(rs) if tier == 'thorough'
+                '11 targets (relative, sub-directory, ./, sub/../, absolute, PATH absolute dir, PATH relative dir, name also in cwd, '
+                '-m module, -m package, -m package.module; package modules use relative imports at top level, in try/except ImportError, in if blocks and lazily in functions)' + (' = %d combinations, all run (argument list chosen per combination)' % len(rs) if tier == 'thorough'
                                             else '; pairwise covering subset: %s of %s value pairs covered by %d cases' % (pairs_cov, pairs_tot, len(rs))),
         dimension_histogram=hist, dispatch_modes_observed={str(k): v for k, v in sorted(modes.items())},
         hypothesis_holds_on=dict(C07_env_equal_script=script_cases, C07_env_module_but_argv0_partial=mod_ok_hyp,
